@@ -233,10 +233,10 @@ def run_ref_rule_case(ki, vi, ni, ti):
 # ---------------------------------------------------------------- registered custom markings: definition_type decides the class of the definition
 def marking_definition_forms(v21: bool, ti: int, fi: int) -> bool:
     """
-    pre: 0 <= ti < 3 and 0 <= fi < 7
+    pre: 0 <= ti < 4 and 0 <= fi < 7
     post: _
     """
-    v21, ti, fi = bool(v21) and True or False, pick(ti, 3), pick(fi, 7)
+    v21, ti, fi = bool(v21) and True or False, pick(ti, 4), pick(fi, 7)
     with Native():
         ok = run_marking_form_case(v21, ti, fi)
     V.reached()
@@ -258,16 +258,22 @@ def run_marking_form_case(v21, ti, fi):
         @mod.CustomMarking("x-mark-b", [("prop_one", P.StringProperty(required=True)), ("other", P.IntegerProperty())])
         class MarkB(object):
             pass
-        dtype = ["x-mark-a", "x-mark-b", "statement"][ti]
-        want_cls = [MarkA, MarkB, mod.StatementMarking][ti]
+        dtype = ["x-mark-a", "x-mark-b", "statement", "tlp"][ti]
+        want_cls = [MarkA, MarkB, mod.StatementMarking, mod.TLPMarking][ti]
         forms = [{"prop_one": "v"}, MarkA(prop_one="v"), MarkB(prop_one="v", other=1), mod.StatementMarking(statement="s"), mod.TLPMarking(tlp="red"),
                  json.dumps({"prop_one": "v"}), 5]
         if ti == 2 and fi == 0:
             forms[0] = {"statement": "s"}
+        kw = {}
+        if ti == 3:
+            # a TLP marking definition is one of the four fixed objects of the specification
+            forms[0] = {"tlp": "red"}
+            kw = {"id": stix2.TLP_RED["id"], "created": stix2.TLP_RED["created"]} if not v21 else {"id": stix2.v21.TLP_RED["id"], "created": stix2.v21.TLP_RED["created"],
+                                                                                                   "name": "TLP:RED"}
         try:
-            md = mod.MarkingDefinition(definition_type=dtype, definition=forms[fi])
-        except (STIXError, ValueError, TypeError, KeyError):
-            return fi not in ((0, 1) if ti == 0 else (0, 2) if ti == 1 else (0, 3))     # the dictionary and the right-class instance must be accepted
+            md = mod.MarkingDefinition(definition_type=dtype, definition=forms[fi], **kw)
+        except (STIXError, ValueError, TypeError):
+            return fi not in ((0, 1), (0, 2), (0, 3), (0, 4))[ti]     # the dictionary and the right-class instance must be accepted
         if not isinstance(md.definition, want_cls):
             return False
         text = md.serialize()
